@@ -3,6 +3,7 @@
 //! vcheck --worker <ID> <tier> <idx> <n> <workdir> [--replay FILE]
 mod engine;
 mod props;
+pub mod aik;
 pub mod gen_;
 pub mod model;
 
@@ -34,6 +35,9 @@ fn main() {
     let args: Vec<String> = std::env::args().collect();
     if args.len() >= 2 && args[1] == "--worker" {
         std::process::exit(worker(&args[2..]));
+    }
+    if args.len() >= 3 && args[1] == "--aik" {
+        std::process::exit(aik_debug(&args[2..]));
     }
     if args.len() < 3 {
         eprintln!("usage: vcheck <ID> <quick|thorough> [--replay FILE]");
@@ -136,6 +140,7 @@ fn worker(args: &[String]) -> i32 {
         progress,
         crashy: false,
         notes: vec![],
+        shrink_iters: 3000,
     };
 
     // run the property on a thread with the same stack size as a main thread (8 MiB), so that
@@ -432,3 +437,75 @@ fn supervisor(args: &[String]) -> i32 {
 
 #[allow(dead_code)]
 fn _unused(_: &Path) {}
+
+/// vcheck --aik FILE [FN [DATA...]]: compile FN (default `entry`) of an Aiken module and evaluate
+/// it on the given Data arguments (UPLC data syntax, e.g. `I 5`, `List [I 1]`, `Constr 0 []`).
+fn aik_debug(args: &[String]) -> i32 {
+    use aiken_lang::ast::{ModuleKind, TraceLevel, Tracing};
+    let src = std::fs::read_to_string(&args[0]).expect("read file");
+    let name = args.get(1).cloned().unwrap_or("entry".to_string());
+    let level = match std::env::var("TRACE").as_deref() {
+        Ok("silent") => TraceLevel::Silent,
+        Ok("compact") => TraceLevel::Compact,
+        _ => TraceLevel::Verbose,
+    };
+    let tracing = Tracing::All(level);
+    let mut proj = aik::Proj::new();
+    match proj.add_module("m", ModuleKind::Lib, &src, tracing) {
+        Ok(_) => {}
+        Err(e) => {
+            println!("compile error: {e:?}");
+            return 1;
+        }
+    }
+    let mut g = proj.generator(aiken_lang::plutus_version::PlutusVersion::V3, tracing);
+    aiken_lang::verif_hooks::start_recording();
+    let Some(p) = aik::compile_fn(&proj, &mut g, 0, &name) else {
+        println!("no function {name}");
+        return 1;
+    };
+    if std::env::var("SHOW").is_ok() {
+        println!("{}", p.to_pretty());
+    }
+    let data: Vec<uplc::PlutusData> = args[2..]
+        .iter()
+        .map(|a| match uplc::parser::term(&format!("(con data ({a}))")) {
+            Ok(uplc::ast::Term::Constant(c)) => match &*c {
+                uplc::ast::Constant::Data(d) => d.clone(),
+                _ => panic!("not data"),
+            },
+            other => panic!("cannot parse data {a}: {other:?}"),
+        })
+        .collect();
+    for pre in aiken_lang::verif_hooks::take_recorded() {
+        if std::env::var("SHOWPRE").is_ok() {
+            println!("--- pre-optimisation:\n{}", pre.to_pretty());
+        }
+        let mut interned = pre.clone().clean_up_no_inlines();
+        uplc::optimize::interner::CodeGenInterner::new().program(&mut interned);
+        match interned.pipe_ndb() {
+            Ok(ndb) => {
+                let (out, _, _) = aik::eval_with_args(&ndb, &data);
+                println!("pre-optimisation outcome: {}", match out { aik::Outcome::Value(t) => t.to_pretty(), aik::Outcome::Error(k, _) => format!("error {k}") });
+            }
+            Err(e) => println!("pre-optimisation program not convertible: {e}"),
+        }
+    }
+    let ndb = aik::to_ndb(&p).expect("to_ndb");
+    let (out, logs, cost) = aik::eval_with_args(&ndb, &data);
+    match out {
+        aik::Outcome::Value(t) => println!("value: {}", t.to_pretty()),
+        aik::Outcome::Error(k, d) => println!("error: {k}: {d}"),
+    }
+    println!("logs: {logs:?}  cost: {cost:?}");
+    0
+}
+
+trait PipeNdb {
+    fn pipe_ndb(self) -> Result<uplc::ast::Program<uplc::ast::NamedDeBruijn>, String>;
+}
+impl PipeNdb for uplc::ast::Program<uplc::ast::Name> {
+    fn pipe_ndb(self) -> Result<uplc::ast::Program<uplc::ast::NamedDeBruijn>, String> {
+        uplc::ast::Program::<uplc::ast::NamedDeBruijn>::try_from(self).map_err(|e| format!("{e:?}"))
+    }
+}
